@@ -199,6 +199,81 @@ func runRevoked(p *core.Prog) *core.Result {
 		}
 	}
 	res.Count("objectImpl_methods_of_proxyObject", n)
+	// the target is read before the trap runs: a trap can revoke its own proxy, so a read of
+	// p.target / p.handler that is reachable from a trap call without a fresh checkHandler() in
+	// between may see nil (seed C11/j: isExtensible re-read p.target after the trap)
+	ph, err := p.GojaType("proxyHandler")
+	if err != nil {
+		return res.Fail(err)
+	}
+	after := func(a, b ssa.Instruction) bool { // b can execute after a
+		if a.Block() == b.Block() {
+			if core.InstrIndex(a) < core.InstrIndex(b) {
+				return true
+			}
+			for _, s := range a.Block().Succs {
+				if s == a.Block() || core.Reaches(s, a.Block()) {
+					return true // the block is part of a loop
+				}
+			}
+			return false
+		}
+		return core.Reaches(a.Block(), b.Block())
+	}
+	nStale := 0
+	for _, f := range methods {
+		var traps, checks, loads []ssa.Instruction
+		core.AllInstrs(f, func(in ssa.Instruction) {
+			switch x := in.(type) {
+			case *ssa.Call:
+				if x.Call.IsInvoke() && core.NamedOf(x.Call.Value.Type()) == ph {
+					traps = append(traps, in)
+				}
+				if x.Call.StaticCallee() == checkHandler {
+					checks = append(checks, in)
+				}
+			case *ssa.UnOp:
+				if x.Op == token.MUL {
+					if fv := core.FieldOf(x.X); fv == fTarget || fv == fHandler {
+						if fa, ok := x.X.(*ssa.FieldAddr); ok && len(f.Params) > 0 && fa.X == f.Params[0] {
+							// only reads that are used for more than a nil comparison
+							used := false
+							for _, r := range core.Referrers(x) {
+								if _, isCmp := r.(*ssa.BinOp); !isCmp {
+									used = true
+								}
+							}
+							if used {
+								loads = append(loads, in)
+							}
+						}
+					}
+				}
+			}
+		})
+		for _, l := range loads {
+			for _, k := range traps {
+				if !after(k, l) {
+					continue
+				}
+				fresh := false
+				for _, c := range checks {
+					if after(k, c) && core.InstrDominates(c, l) {
+						fresh = true
+					}
+				}
+				nStale++
+				key := fmt.Sprintf("(*proxyObject).%s:target read after a trap ran#%d", f.Name(), nStale)
+				if fresh {
+					res.OK(key, p.Pos(l.Pos()), "re-validated by checkHandler() after the trap")
+				} else {
+					res.Bad(key, p.Pos(l.Pos()), "p.target / p.handler is read after the handler's trap was called ("+p.Pos(k.Pos())+") without a new checkHandler(): a trap that revokes its own proxy leaves nil here and the dereference is a Go nil-pointer panic; read the target into a local before calling the trap")
+				}
+				break
+			}
+		}
+	}
+	res.Count("target reads reachable from a trap call", nStale)
 
 	// override completeness: every key-kinded / structural internal method is overridden (no silent fallback to baseObject)
 	base, _ := p.GojaType("baseObject")
